@@ -1,6 +1,6 @@
 (* Wire encoding for the reference semantics (glue). *)
 From Coq Require Import List String NArith ZArith.
-From EinxV Require Import Base.Sexp Spec.LoopSem.
+From EinxV Require Import Base.Sexp Spec.LoopSem Spec.UpdateSem.
 Import ListNotations.
 Open Scope string_scope.
 
@@ -117,5 +117,23 @@ Definition run_loop (cmd : string) (arg : sexp) : sexp :=
       | _, _, _ => bad "plan_update_at: cannot decode"
       end
     | _ => bad "plan_update_at: expected (tensor coords updates)"
+    end
+  else if String.eqb cmd "plan_update_result" then
+    (* (op target coords updates target_data update_data) -> (result plan); op: add | sub | set *)
+    match arg with
+    | L [A op; t; cs; u; td; ud] =>
+      match dec_dims t, dList dec_coord cs, dec_dims u, dListZ td, dListZ ud with
+      | Some t, Some cs, Some u, Some td, Some ud =>
+        match plan_update_at t cs u with
+        | Some p =>
+          let res := if String.eqb op "add" then apply_acc 1 td p ud
+                     else if String.eqb op "sub" then apply_acc (-1) td p ud
+                     else apply_set td p ud in
+          L [sListZ res; L (map (fun x => L [sN (fst x); sN (snd x)]) p)]
+        | None => none_s
+        end
+      | _, _, _, _, _ => bad "plan_update_result: cannot decode"
+      end
+    | _ => bad "plan_update_result: expected (op target coords updates tdata udata)"
     end
   else bad "loop: unknown command".
